@@ -122,6 +122,33 @@ class C20:
             ctx.bad("R20.3", self.file, "rasterize", "values handling",
                     bad or "a value list whose length differs from the geometry list is not rejected (zip silently truncates)", s.node.lineno)
 
+        # ---- R20.6 axis purity of the coordinate transform (whatever lookup it uses): the x component of a transformed
+        # vertex is computed from the template's x axis only, the y component from its y axis only
+        tfs = [x[2][1] for e in s.events for x in walk(e.term) if x[0] == "call" and x[1] == ("ext", "shapely.transform") and len(x[2]) >= 2]
+        tfs = [t for t in tfs if t[0] == "lambda" and t[1] in s.lambdas]
+        if not tfs:
+            ctx.undec("R20.6", site, "the function handed to shapely.transform is not a local function / lambda")
+        else:
+            ls = s.lambdas[tfs[0][1]]
+            pairs = []
+            for r in ls.returns:
+                for x in walk(r.term):
+                    if x[0] in ("list", "tuple") and len(x[1]) == 2 and all(any(y in (xdim, ydim) for y in walk(c)) for c in x[1]):
+                        pairs.append((x[1][0], x[1][1], r))
+            if not pairs:
+                ctx.undec("R20.6", site, "no (x component, y component) pair found in the coordinate transform")
+            for c0, c1, r in pairs:
+                m0 = {d for d in (xdim, ydim) if any(y == d for y in walk(c0))}
+                m1 = {d for d in (xdim, ydim) if any(y == d for y in walk(c1))}
+                if m0 == {xdim} and m1 == {ydim}:
+                    ctx.ok("R20.6", f"{self.file}:{r.lineno} rasterize", "x component computed from the xdim axis only, y component from the ydim axis only")
+                else:
+                    which = "x" if m0 != {xdim} else "y"
+                    ctx.bad("R20.6", self.file, "rasterize", f"{which} component of the transform mentions {sorted(show(d) for d in (m0 if which == 'x' else m1))}",
+                            f"the {which} component of a transformed vertex depends on the {'y' if which == 'x' else 'x'} axis of the template "
+                            f"(`{show(c0 if which == 'x' else c1)[:120]}`): on a non-square template the bins (or their clamping bound) of one "
+                            f"axis are taken from the other", r.lineno, witness={"component": which})
+
         # ---- R20.4 coordinate transform
         gci = ("global", f"{DIMS}:get_coord_index", "func")
         tf = None
@@ -201,6 +228,7 @@ def run(ctx: Ctx):
     ctx.rule("R20.3", "scalar value broadcast; length mismatch rejected", 1)
     ctx.rule("R20.4", "x through the xdim axis, y through the ydim axis, clamped", 1)
     ctx.rule("R20.5", "shapes in input order with their values; fill/dtype/all_touched forwarded", 4)
+    ctx.rule("R20.6", "axis purity: each coordinate component is looked up on its own axis only", 1)
     C20(ctx).run()
     # bin lookup with clamping (anchored file arrays/dimensions.py get_coord_index): C16's lookup rule
     from .c16 import C16
